@@ -5,6 +5,7 @@ import (
 	"encoding/json"
 	"math"
 	"net/http"
+	"net/url"
 	"strconv"
 	"strings"
 	"time"
@@ -155,6 +156,17 @@ func (p *Processor) ChargingDataCreate(
 		return nil, "", problemDetails
 	}
 
+	if strings.Contains(chargingData.NfConsumerIdentification.NFName, "/") {
+		// the consumer name becomes part of the charging session reference, which is one segment of the
+		// charging data resource URI
+		logger.ChargingdataPostLog.Errorf("nFName [%s] contains a path separator", chargingData.NfConsumerIdentification.NFName)
+		problemDetails := &models.ProblemDetails{
+			Status: http.StatusBadRequest,
+			Cause:  "INVALID_MSG_FORMAT",
+		}
+		return nil, "", problemDetails
+	}
+
 	// Open CDR
 	// ChargingDataRef(charging session id):
 	// A unique identifier for a charging data resource in a PLMN
@@ -228,7 +240,8 @@ func (p *Processor) ChargingDataCreate(
 
 	// build response
 	logger.ChargingdataPostLog.Infof("NewChfUe %s", ueId)
-	locationURI := self.Url + "/nchf-convergedcharging/v3/chargingdata/" + chargingSessionId
+	// (the reference is one path segment: characters with a meaning in a URI are escaped)
+	locationURI := self.Url + "/nchf-convergedcharging/v3/chargingdata/" + url.PathEscape(chargingSessionId)
 	timeStamp := time.Now()
 
 	responseBody.InvocationTimeStamp = &timeStamp
